@@ -210,7 +210,7 @@ func taskfile(c Cfg) string {
 		}
 		// markers 1 and 2 are the body the specification speaks of; 9 (a deferred command) and 7 (a command
 		// in a loop) only matter in the read-only modes, where nothing at all may run
-		b.WriteString("    cmds:\n      - defer: echo 9 >> \"$TRACE\"\n      - echo 1 >> \"$TRACE\"\n      - for: [x, y]\n        cmd: echo 7 >> \"$TRACE\"\n      - task: pre\n      - test ! -f \"$CTL/cancelsib\" || sleep 2\n      - test ! -f \"$CTL/fail1\"\n      - test ! -f \"$CTL/kill1\" || sh -c 'kill -KILL $PPID'\n")
+		b.WriteString("    cmds:\n      - defer: echo 9 >> \"$TRACE\"\n      - echo 1 >> \"$TRACE\"\n      - for: [x, y]\n        cmd: echo 7 >> \"$TRACE\"\n      - task: pre\n      - test ! -f \"$CTL/cancelsib\" || { touch \"$CTL/started\"; sleep 3; }\n      - test ! -f \"$CTL/fail1\"\n      - test ! -f \"$CTL/kill1\" || sh -c 'kill -KILL $PPID'\n")
 		if c.Gen {
 			b.WriteString("      - touch out.gen extra1.gen extra2.gen\n")
 		}
@@ -221,7 +221,7 @@ func taskfile(c Cfg) string {
 	}
 	fmt.Fprintf(&b, "  wrapdep:\n    deps: ['%s']\n", t)
 	fmt.Fprintf(&b, "  retry:\n    ignore_error: true\n    cmds:\n      - task: '%s'\n      - task: '%s'\n", t, t)
-	fmt.Fprintf(&b, "  wrap:\n    deps: ['%s', sib]\n  sib:\n    cmds:\n      - sleep 0.7; exit 1\n", t)
+	fmt.Fprintf(&b, "  wrap:\n    deps: ['%s', sib]\n  sib:\n    cmds:\n      - for i in $(seq 1 60); do test -f \"$CTL/started\" && break; sleep 0.05; done; exit 1\n", t)
 	b.WriteString("  pre:\n    preconditions:\n      - test ! -f \"$CTL/failpre\"\n")
 	b.WriteString("  d:\n    dir: ./newdir\n    status: ['test -f nope']\n    cmds:\n      - echo 3 >> \"$TRACE\"\n")
 	return b.String()
@@ -421,6 +421,7 @@ func Execute(h *History) error {
 			if ctlFile != "" {
 				os.Remove(ctlFile)
 			}
+			os.Remove(filepath.Join(ctl, "started"))
 			tb, _ := os.ReadFile(trace)
 			s.Ran = []int{}
 			for _, ln := range strings.Fields(string(tb[traceLen:])) {
